@@ -13,7 +13,10 @@ from . import keyslib as K
 RULE = ("per named curve: encodings (raw/uncompressed/compressed/hybrid) of points of <G> incl. a leading-zero "
         "coordinate, every prefix byte 00..08,ff, wrong parity, hybrid mismatch, aliases x+p / y+p, off-curve, special "
         "coordinates {0,1,2,p-1,p,p+1,256^l-1}^2, residue / non-residue x, all lengths 0..2l+3; SECP112r2 points of "
-        "order 2,4,n,2n,4n; from_public_point / point_is_valid with negative and >= p coordinates; SPKI wrapper "
+        "order 2,4,n,2n,4n; from_public_point / point_is_valid with negative and >= p coordinates; point OBJECTS with validation on "
+        "and off: PointJacobi (with / without order) and legacy Point on the key's curve, points of another named curve of the "
+        "same size on their own curve object, foreign CurveFp objects (shifted a, other modulus) through valid coordinates, toy "
+        "curve points, INFINITY; SPKI wrapper "
         "variants (algorithm OID, unknown / other curve OID, unused bits, raw form, trailing data at every level, NULL / "
         "explicit parameters, wrong tags, non-minimal and indefinite lengths) + random mutations, DER and PEM; toy "
         "curves (h = 1 and h = 4): every 2-byte string and every (prefix, x, y) in a grid. A case is distinct by its "
@@ -131,6 +134,119 @@ def expected_der(cis, buf):
 
 
 # ------------------------------------------------------------------------------------------------
+# point OBJECTS handed to from_public_point
+SAME_SIZE = [("NIST256p", "SECP256k1", "BRAINPOOLP256r1"), ("SECP160r1", "BRAINPOOLP160r1"), ("NIST192p", "BRAINPOOLP192r1"),
+             ("NIST224p", "BRAINPOOLP224r1"), ("NIST384p", "BRAINPOOLP384r1"), ("NIST521p", "BRAINPOOLP512r1"),
+             ("SECP112r1", "SECP112r2"), ("SECP128r1", "SECP112r1"), ("BRAINPOOLP320r1", "NIST384p")]
+
+
+def point_objects(ctx, ci, cis):
+    """descriptions of point objects for the key curve of `ci`: {object, point_curve (p, a, b, h), x, y, order, class}.
+    (i) points of the curve itself as PointJacobi (with / without order) and legacy Point, also off-curve / out of range;
+    (ii) points of another named curve of the same size, on THEIR curve object; (iii) foreign CurveFp objects through
+    the same coordinates (a shifted, or another modulus) and toy curves; (iv) both classes; (v) INFINITY"""
+    rng = ctx.rng
+    own = (ci.p, ci.a, ci.b, ci.h)
+    out = []
+    pts = K.some_points(ci, rng, 2)
+    for (x, y) in pts:
+        for obj, order in (("PointJacobi", ci.n), ("PointJacobi", None), ("Point", None)):
+            out.append({"object": obj, "point_curve": own, "x": x, "y": y, "order": order, "class": "own-curve"})
+        out.append({"object": "PointJacobi", "point_curve": own, "x": x, "y": (y + 1) % ci.p, "order": None, "class": "own-curve-off"})
+        out.append({"object": "PointJacobi", "point_curve": own, "x": x + ci.p, "y": y, "order": None, "class": "own-curve-alias"})
+        # foreign curve objects through the same coordinates
+        a2 = (ci.a + 1 + rng.randrange(5)) % ci.p
+        out.append({"object": "PointJacobi", "point_curve": (ci.p, a2, (y * y - x ** 3 - a2 * x) % ci.p, 1), "x": x, "y": y,
+                    "order": ci.n, "class": "foreign-same-coords"})
+        out.append({"object": "Point", "point_curve": (ci.p, a2, (y * y - x ** 3 - a2 * x) % ci.p, 1), "x": x, "y": y,
+                    "order": None, "class": "foreign-same-coords"})
+        p2 = ci.p + 2 * rng.randrange(1, 50)
+        out.append({"object": "PointJacobi", "point_curve": (p2, ci.a, (y * y - x ** 3 - ci.a * x) % p2, 1), "x": x, "y": y,
+                    "order": None, "class": "foreign-modulus-same-coords"})
+    # points of the other curves of the same size, as objects on their own curve
+    names = {n for grp in SAME_SIZE if ci.name in grp for n in grp} - {ci.name}
+    for o in cis:
+        if o.name in names:
+            for (x, y) in K.some_points(o, rng, 2):
+                for obj in ("PointJacobi", "Point"):
+                    out.append({"object": obj, "point_curve": (o.p, o.a, o.b, o.h), "x": x, "y": y, "order": o.n if obj == "PointJacobi" else None,
+                                "class": "other-named-curve"})
+    # toy curve points (tiny coordinates) as objects on the toy curve
+    t = K.toy_curve(11, 1, 6)
+    for (x, y) in t.points[:3]:
+        out.append({"object": "PointJacobi", "point_curve": (t.p, t.a, t.b, t.h), "x": x, "y": y, "order": t.n, "class": "toy-curve-point"})
+    out.append({"object": "INFINITY", "point_curve": None, "x": None, "y": None, "order": None, "class": "infinity"})
+    return out
+
+
+def build_point(desc, key_cv):
+    from ecdsa import ellipticcurve as EC
+    if desc["object"] == "INFINITY":
+        return EC.INFINITY
+    pc = tuple(desc["point_curve"])
+    kc = key_cv.curve
+    cf = kc if pc == (kc.p(), kc.a(), kc.b(), kc.cofactor()) else EC.CurveFp(*pc)
+    if desc["object"] == "Point":
+        return EC.Point(cf, desc["x"], desc["y"], desc["order"])
+    return EC.PointJacobi(cf, desc["x"], desc["y"], 1, desc["order"])
+
+
+def expected_object(ci, desc, validate):
+    """the property at a point object: the set of admissible outcomes.  The text of C08 constrains the COORDINATES (range,
+    curve equation of the key's curve, subgroup); whether the object's own `curve()` is the key's curve is not looked at
+    by the code and not demanded by the text, so a foreign curve object through valid coordinates may be accepted — but
+    then it must denote (x, y).  For cofactor != 1 the code multiplies the object on ITS curve, so for a foreign object
+    either outcome is admitted there (reported as an observation, not judged)."""
+    if desc["object"] == "INFINITY":
+        return {"MalformedPointError"}
+    x, y = desc["x"], desc["y"]
+    own = tuple(desc["point_curve"]) == (ci.p, ci.a, ci.b, ci.h)
+    inr = 0 <= x < ci.p and 0 <= y < ci.p
+    if not inr:
+        return {"MalformedPointError"}
+    if not validate:
+        return {("ok", x, y)}
+    if not ci.on_curve(x, y):
+        return {"MalformedPointError"}
+    if ci.h != 1 and not own:
+        return {("ok", x, y), "MalformedPointError"}
+    return {("ok", x, y)} if ci.in_subgroup(x, y) else {"MalformedPointError"}
+
+
+def infinity_finding():
+    """id of an open known finding about INFINITY handed to from_public_point, if the coordinator has recorded one"""
+    for k in common.load_known():
+        if k.get("property") == "C08" and k.get("status") == "open" and "INFINITY" in (k.get("what", "") + str(k.get("matches", ""))) \
+                and "from_public_point" in (k.get("what", "") + str(k.get("matches", ""))):
+            return k["id"]
+    return None
+
+
+def check_object(ctx, ci, desc, validate):
+    from ecdsa import VerifyingKey
+    try:
+        pt = build_point(desc, ci.cv)
+    except AssertionError:
+        return None            # legacy Point refuses to be built off its own curve: no object to hand over
+    exp = expected_object(ci, desc, validate)
+    try:
+        got = ("ok",) + K.vk_xy(VerifyingKey.from_public_point(pt, ci.cv, validate_point=validate))
+    except Exception as e:  # noqa
+        got = common.errname(e)
+    if got in exp:
+        return None
+    rec = {"input": {"entry": "VerifyingKey.from_public_point", "curve": ci.name, "point_object": desc, "validate_point": validate},
+           "observed": got if isinstance(got, str) else list(got), "expected": sorted(map(str, exp))}
+    if desc["object"] == "INFINITY" and got == "TypeError":
+        kid = infinity_finding()
+        if kid:
+            rec["known"] = kid
+        else:
+            rec["observation"] = True      # reported to the coordinator; not judged until it has a disposition
+    return rec
+
+
+# ------------------------------------------------------------------------------------------------
 def correspond(ctx):
     from ecdsa import VerifyingKey, curves as C, ellipticcurve as EC, ecdsa as E, der
     cis = named(ctx)
@@ -161,6 +277,23 @@ def correspond(ctx):
                 c.add("point_is_valid %s %d %d %s" % (ct, x, y, sub), lambda: "1" if E.point_is_valid(cv.generator, x, y) else "0", "point_is_valid")
                 c.add("point_is_valid %s %d %d m" % (ct, x, y), lambda: "1" if E.point_is_valid(cv.generator, x, y) else "0", "point_is_valid/model-ext")
                 c.add("on_curve %s %d %d" % (ct, x, y), lambda: "1" if cv.curve.contains_point(x, y) else "0", "on_curve")
+        # point OBJECTS (the model sees the coordinates the object reports: `fromPublicPoint`)
+        for ci in cis:
+            cv, ct = ci.cv, K.curve_tok(ci.cv)
+            for desc in point_objects(ctx, ci, cis):
+                if desc["object"] == "INFINITY":
+                    continue            # no coordinates: outside the model's interface (see the search)
+                own = tuple(desc["point_curve"]) == (ci.p, ci.a, ci.b, ci.h)
+                if ci.h != 1 and not own:
+                    continue            # the code multiplies a foreign object on its own curve
+                try:
+                    pt = build_point(desc, cv)
+                except AssertionError:
+                    continue
+                for v in (1, 0):
+                    out = K.real(hk, lambda: VerifyingKey.from_public_point(pt, cv, validate_point=bool(v)))
+                    K.add(c, "vk_from_public_point %s %d %d %d %s" % (ct, desc["x"], desc["y"], v, hk.sub_tok()), out, K.fmt_vk,
+                          "object-%s-%s" % (desc["object"], desc["class"]))
         c.add("find_curve [1,3,132,0,99]", lambda: C.find_curve((1, 3, 132, 0, 99)).name, "table")
         c.add("find_curve []", lambda: C.find_curve(()).name, "table")
         c.run()
@@ -270,6 +403,20 @@ def search(ctx):
             if got != exp:
                 ctx.violation({"input": {"entry": "VerifyingKey.from_public_point", "curve": ci.name, "x": x, "y": y},
                                "observed": got, "expected": exp})
+    # 1b. point objects of every kind, validation on and off
+    obs = 0
+    for ci in cis:
+        for desc in point_objects(ctx, ci, cis):
+            for validate in (True, False):
+                n_eval += 1
+                ctx.hist("search.object", desc["object"] + "/" + desc["class"])
+                rec = check_object(ctx, ci, desc, validate)
+                if rec and rec.pop("observation", False):
+                    obs += 1
+                    ctx.hist("search.observation", "from_public_point(INFINITY) -> " + str(rec["observed"]))
+                elif rec:
+                    ctx.violation(rec)
+    ctx.cov["observations_not_judged"] = {"from_public_point(INFINITY) raises TypeError instead of MalformedPointError": obs}
     # 2. toy curves: exhaustive truth table
     for t in K.TOYS:
         ci = K.toy_curve(*t)
@@ -332,6 +479,10 @@ def replay(rec):
             rng = None
         r = check_string(None, ci, bytes.fromhex(i["bytes"]), i.get("class", ""), VerifyingKey, MalformedPointError)
         return r is not None
+    if i["entry"] == "VerifyingKey.from_public_point" and "point_object" in i:
+        ci = next(x for x in cis if x.name == i["curve"])
+        r = check_object(None, ci, i["point_object"], i["validate_point"])
+        return r is not None and not r.get("observation")
     if i["entry"] in ("VerifyingKey.from_der", "VerifyingKey.from_pem"):
         buf = bytes.fromhex(i["bytes"])
         exp, _ = expected_der(cis, buf)
